@@ -9,7 +9,8 @@
 From Coq Require Import ZArith List Bool Arith.
 Import ListNotations.
 Require Import SC3.model.OscMatch SC3.model.OscBundleParse SC3.model.Dispatch SC3.model.Registry.
-Require Import SC3.proofs.C18_match SC3.proofs.C18_render SC3.proofs.C18_parse SC3.proofs.C18_dispatch SC3.proofs.C18_registry.
+Require Import SC3.proofs.C18_match SC3.proofs.C18_render SC3.proofs.C18_text SC3.proofs.C18_illformed SC3.proofs.C18_parse
+  SC3.proofs.C18_dispatch SC3.proofs.C18_compose SC3.proofs.C18_registry.
 Open Scope Z_scope.
 
 (* ======================= (a) the matcher ======================================================== *)
@@ -31,15 +32,73 @@ Proof. exact compile_correct. Qed.
 (* from the pattern TEXT to the OSC 1.0 language: for patterns made of literals, '?' and '*' the
    matching function (rewrite, then the regex parser, then derivatives) answers yes exactly on the
    OSC 1.0 language of the pattern.
-   FULL statement (proved only for this fragment; bracket and brace patterns are tied by the
-   correspondence and by the search oracle):
-     forall ts a, well_formed ts -> (osc_rematch (render ts) a = MTrue <-> osc_lang ts a) *)
+   (Kept from the first round; superseded by osc10_pattern_text_correct below, which covers the whole
+   pattern alphabet.) *)
 Theorem osc10_pattern_text_correct_partial : forall ts a, forallb flat_tok ts = true ->
   (osc_rematch (render ts) a = MTrue <-> osc_lang ts a).
 Proof. exact flat_pattern_correct. Qed.
 Example flat_pattern_nonvacuous :
   forallb flat_tok [OLit 47; OLit 97; OStar; OAny] = true /\ render [OLit 47; OLit 97; OStar; OAny] = [47; 97; 42; 63]
   /\ osc_rematch [47; 97; 42; 63] [47; 97; 98; 99] = MTrue.
+Proof. repeat split; vm_compute; reflexivity. Qed.
+
+(* THE FULL STATEMENT, for the whole pattern alphabet.  `pat_text ts p` (model/OscMatch.v) says that
+   p is a well-formed OSC 1.0 address pattern text -- literals, '?', '*', classes [abc] with ranges
+   [a-c], negation [!..] and an optional meaningless '-' before the ']', alternatives {a,b} -- and
+   that it denotes the tokens ts.  For every such text and every address: the matching function
+   (rewrite table, regex parser, derivatives, whole address) says yes exactly on the OSC 1.0
+   language of the text. *)
+Theorem osc10_pattern_text_correct : forall ts p a, pat_text ts p ->
+  (osc_rematch p a = MTrue <-> osc_lang ts a).
+Proof. exact pat_text_correct. Qed.
+(* pat_text covers exactly the token sequences that are well-formed token by token, and on a
+   well-formed text the outcome is yes or no, never an error *)
+Theorem osc10_pattern_text_covers :
+  (forall ts, forallb tok_ok ts = true -> pat_text ts (render ts))
+  /\ (forall ts p, pat_text ts p -> forallb tok_ok ts = true)
+  /\ (forall ts p a, pat_text ts p -> osc_rematch p a = MTrue \/ osc_rematch p a = MFalse).
+Proof. split; [exact render_pat_text | split; [exact pat_text_ok | exact pat_text_decides]]. Qed.
+(* part by part: a matched address has exactly as many '/' as the pattern has literal '/' -- no
+   wildcard, class or alternative ever matches across a part boundary *)
+Theorem osc10_match_is_partwise : forall ts p a, pat_text ts p -> osc_rematch p a = MTrue ->
+  count_slash a = count_slash_toks ts.
+Proof.
+  intros ts p a H Hm. apply osc_lang_same_parts; [eapply pat_text_ok; eassumption | apply (pat_text_correct ts p a H); assumption].
+Qed.
+Example pat_text_test_pattern :    (* "/m?t{ch,Ch}[a-z]n[!a-f]_*" of tests/test_oscfunc.py *)
+  let ts := [OLit 47; OLit 109; OAny; OLit 116; OAlt [[99;104]; [67;104]]; OClass false [(97, 122)]; OLit 110;
+             OClass true [(97, 102)]; OLit 95; OStar] in
+  pat_text ts [47;109;63;116;123;99;104;44;67;104;125;91;97;45;122;93;110;91;33;97;45;102;93;95;42]
+  /\ osc_lang ts [47;109;97;116;67;104;105;110;103;95;109;115;103].
+Proof.
+  intro ts. assert (H : pat_text ts (render ts)) by (apply render_pat_text; vm_compute; reflexivity).
+  split; [exact H|]. apply (pat_text_correct ts _ _ H). vm_compute. reflexivity.
+Qed.
+Example pat_text_dash_rule :       (* "/[a-]" : the '-' before ']' means nothing *)
+  pat_text [OLit 47; OClass false [(97, 97)]] [47; 91; 97; 45; 93]
+  /\ osc_rematch [47; 91; 97; 45; 93] [47; 97] = MTrue /\ osc_rematch [47; 91; 97; 45; 93] [47; 45] = MFalse.
+Proof.
+  split; [|split; vm_compute; reflexivity].
+  apply PT_lit; [reflexivity|]. apply (PT_class false true [(97, 97)] [] []); [reflexivity | constructor].
+Qed.
+
+(* ill-formed texts.  The regex parser never runs out of fuel, so the outcome of the matching
+   function is always yes / no / re.error; a well-formed text followed by a '}' without '{', by a
+   '{' that is never closed, or by a '[' that is never closed is an re.error (what re.compile
+   raises); an re.error address fires no matching responder and leaves the state alone. *)
+Theorem pattern_outcome_total : forall p a, osc_rematch p a <> MOutOfFuel /\ osc_rematch_orig p a <> MOutOfFuel.
+Proof. intros p a. split; apply rematch_never_out_of_fuel. Qed.
+Theorem illformed_pattern_is_re_error :
+  (forall ts p w a, pat_text ts p -> osc_rematch (p ++ ch_rbrace :: w) a = MReError)
+  /\ (forall ts p ts' q a, pat_text ts p -> pat_text ts' q -> osc_rematch (p ++ ch_lbrace :: q) a = MReError)
+  /\ (forall ts p w a, pat_text ts p -> forallb cplain w = true -> osc_rematch (p ++ ch_lbrk :: w) a = MReError).
+Proof. split; [exact unbalanced_close_brace | split; [exact unclosed_brace | exact unclosed_bracket]]. Qed.
+Theorem illformed_address_dispatches_nothing : forall st m t src port k,
+  osc_rematch (m_addr m) k = MReError -> dispatch_match_d st m t src port = (st, []).
+Proof. exact illformed_address_fires_nothing. Qed.
+Example illformed_examples :
+  osc_rematch [47; 97; 125] [47; 97] = MReError /\ osc_rematch [47; 123; 97] [47; 97] = MReError
+  /\ osc_rematch [47; 91; 97] [47; 97] = MReError /\ osc_rematch [47; 97; 93] [47; 97; 93] = MTrue.
 Proof. repeat split; vm_compute; reflexivity. Qed.
 
 (* whole-length matching: a literal pattern matches only itself (in particular never a path that
@@ -153,6 +212,54 @@ Theorem invoked_function_is_current : forall h m t src port i,
   In i (snd (incoming st m t src port)) ->
   exists r, nth_error (resps st) (i_id i) = Some r /\ i_tag i = user_tag (r_func r).
 Proof. intros h m t src port i st Hi. apply (invoked_current st m t src port (Inv2_final h) i Hi). Qed.
+
+(* (a)+(b) COMPOSED.  For every history and every incoming message whose address is a well-formed
+   pattern text denoting ts: responder id is invoked  <=>  it exists, is enabled, its source / port /
+   argument template accept the message, and -- matching responder -- its path is in the OSC 1.0
+   language of the address, or -- exact responder -- its path equals the address; each once; with
+   the message, time, sender and port unchanged and running its current function.
+   "Enabled" is exactly: created or enable()d since the last disable() / free() / CmdPeriod and, for a
+   one-shot function, not fired since (responder_life_cycle below). *)
+Theorem incoming_message_fires_exactly : forall h ts m t src port,
+  pat_text ts (m_addr m) ->
+  let st := final h in
+  NoDup (map i_id (snd (incoming st m t src port)))
+  /\ (forall id, In id (map i_id (snd (incoming st m t src port))) <->
+        exists r, nth_error (resps st) id = Some r /\ r_enabled r = true /\ accepts r m src port = true /\
+                  (if r_matching r then osc_lang ts (r_path r) else r_path r = m_addr m))
+  /\ (forall i, In i (snd (incoming st m t src port)) ->
+        i_msg i = m /\ i_time i = t /\ i_src i = src /\ i_port i = port
+        /\ exists r, nth_error (resps st) (i_id i) = Some r /\ i_tag i = user_tag (r_func r)).
+Proof. intros h ts m t src port Hp st. apply (incoming_fires_exactly st ts m t src port (Inv2_final h) Hp). Qed.
+
+Theorem responder_life_cycle : forall h,
+  let st := final h in
+  (forall id, (id < length (resps st))%nat -> enabled (enable st id) id = true)
+  /\ (forall id, enabled (disable st id) id = false) /\ (forall id, enabled (free st id) id = false)
+  /\ (forall j id, id <> j -> enabled (disable st j) id = enabled st id)
+  /\ (forall id, enabled (cmd_period st) id = false)
+  /\ (forall m t src port id, enabled (fst (incoming st m t src port)) id = true -> enabled st id = true)
+  /\ (forall m t src port i, In i (snd (incoming st m t src port)) ->
+        (exists r g, nth_error (resps st) (i_id i) = Some r /\ r_func r = FOneShot g) ->
+        enabled (fst (incoming st m t src port)) (i_id i) = false).
+Proof.
+  intros h st. pose proof (Inv2_final h) as HI2. fold st in HI2. destruct HI2 as [HI HF].
+  split; [apply enabled_enable_self|]. split; [apply enabled_disable_self|]. split; [intro; apply enabled_disable_self|].
+  split; [apply enabled_disable_other|]. split; [intro id; apply cmd_period_disables_all; assumption|].
+  split; [intros m t src port; apply (proj2 (incoming_spec st m t src port HI))|].
+  intros m t src port i Hi Hos. apply (oneshot_fired_off st m t src port i (conj HI HF) Hi Hos).
+Qed.
+Example composed_example :   (* "/[ab]*" fires matching responders /a1 and /b, not /c, /a/b; one-shot /b fires once *)
+  let m := {| m_addr := [47;91;97;98;93;42]; m_args := [] |} in
+  let h := [OpCreate [47;97;49] true None None None 0%nat; OpCreate [47;99] true None None None 1%nat;
+            OpCreate [47;98] true None None None 2%nat; OpOneShot 2%nat; OpCreate [47;97;47;98] true None None None 3%nat;
+            OpIncoming m TNow (1, 2) 3; OpIncoming m TNow (1, 2) 3] in
+  map (map inv_key) (snd (run init_state h)) = [[]; []; []; []; []; [(0, 0); (2, 2)]; [(0, 0)]]%nat
+  /\ pat_text [OLit 47; OClass false [(97, 97); (98, 98)]; OStar] (m_addr m).
+Proof.
+  split; [vm_compute; reflexivity|].
+  apply (render_pat_text [OLit 47; OClass false [(97, 97); (98, 98)]; OStar]). vm_compute. reflexivity.
+Qed.
 
 (* responders 0 ("/a"), 1 ("/b"), 2 ("/a"), all matching; the message "/?" invokes 0, 2, 1 *)
 Theorem matching_global_order_refuted :
@@ -288,6 +395,10 @@ Proof. vm_compute. reflexivity. Qed.
 Print Assumptions deriv_match_correct.
 Print Assumptions match_whole_length.
 Print Assumptions osc10_pattern_text_correct_partial.
+Print Assumptions osc10_pattern_text_correct.
+Print Assumptions illformed_pattern_is_re_error.
+Print Assumptions incoming_message_fires_exactly.
+Print Assumptions responder_life_cycle.
 Print Assumptions parse_total.
 Print Assumptions dispatch_exact.
 Print Assumptions dispatch_matching_exactly_once.
